@@ -123,6 +123,28 @@ def run(tier, seed, replay=None):
         if cdt == torch.float32: tol = max(tol, 1e-6)            # single precision cannot certify less
         if not (res <= CONST * tol + 1e-12):
             V.fail("%s: q*y differs from the numerator by more than %g*tol" % (form, CONST), dict(desc, rel_residual=res, tol=tol, ranks=[int(r) for r in q.R]))
+    # ---- operands whose cores are tracked by autograd (watched): the same quotient comes back (small local problems: every local solve is the direct one)
+    rng_t = random.Random(seed + 67)
+    for j in range(6 if tier == "quick" else 40):
+        d = rng_t.choice([2, 3]); N = [rng_t.choice([2, 3, 4]) for _ in range(d)]
+        x = solverkit.rand_tt_float(rng_t, N, solverkit.ranks(rng_t, d, 2), torch.float64); z = solverkit.rand_tt_float(rng_t, N, solverkit.ranks(rng_t, d, 2), torch.float64)
+        y = (z * z) * (1.0 / max(float((z * z).full().abs().max()), 1e-300)) + torchtt.ones(N, dtype=torch.float64)
+        y = torchtt.TT([c.detach().clone() for c in y.round(1e-13).cores])
+        which = ["divisor", "dividend", "starting tensor", "divisor (scalar / y)"][j % 4]
+        desc = {"tracked": which, "N": N, "rank_x": [int(r) for r in x.R], "rank_y": [int(r) for r in y.R]}
+        try:
+            g_ = None
+            if which.startswith("divisor"): torchtt.grad.watch(y)
+            elif which == "dividend": torchtt.grad.watch(x)
+            else: g_ = torchtt.ones(N, dtype=torch.float64); torchtt.grad.watch(g_)
+            if which == "starting tensor": q = torchtt.elementwise_divide(x, y, nswp=50, eps=1e-10, starting_tensor=g_); num = x.full()
+            elif which == "divisor (scalar / y)": q = 2.0 / y; num = torch.full(N, 2.0, dtype=torch.float64)
+            else: q = x / y; num = x.full()
+            res = float((q.full().detach() * y.full().detach() - num.detach()).norm() / max(1e-300, float(num.detach().norm())))
+            if not (res <= CONST * 1e-10 + 1e-12): V.fail("division with a tracked %s: q*y differs from the numerator" % which.split(" (")[0], dict(desc, rel_residual=res))
+        except Exception as ex:
+            V.fail("division with a tracked %s raises %s" % (which.split(" (")[0], type(ex).__name__), dict(desc, exc=str(ex)[:200]))
+        dist["tracked " + which] = dist.get("tracked " + which, 0) + 1
     # ---- the local iterative solver on COMPLEX data (the division of complex tensors reaches it as soon as a local problem exceeds max_full): the contract of
     # gmres_restart - relative residual below the threshold on well-conditioned systems - in complex arithmetic (Hermitian inner product, unitary rotations)
     import torchtt._iterative_solvers as ISv
